@@ -56,6 +56,8 @@ def parseQ (s : String) : Option Qry :=
   | "Y", some n => some (.qExt n)
   | "V", some n => some (.vEven (n / 100) (n % 100))
   | "W", some n => some (.vExt (n / 100) (n % 100))
+  | "M", some n => some (.qMap (n / 10) (n % 10))
+  | "I", some n => some (.iMap (n / 1000) (n / 100 % 10) (n % 100))
   | _, _ => none
 
 def parseAns (s : String) : Option (List Nat) :=
